@@ -156,7 +156,13 @@ func n2judge(r *report.Report, cs string, res n2.Result, a *refamf.AMF, wantStat
 		return "rejected:" + a.Viol[0].Key
 	}
 	if res.ExitCode != 0 || !strings.Contains(res.Stdout, ">> All tests finished") {
-		r.Violate("emulator/did-not-complete", cs, fmt.Sprintf("exit status %d, banner present %v; AMF state %s; output tail: %s", res.ExitCode, strings.Contains(res.Stdout, ">> All tests finished"), a.Summary(), tail(res.Stdout, 600)), picks)
+		key := "emulator/did-not-complete"
+		for _, line := range strings.Split(res.Stdout, "\n") {
+			if strings.HasPrefix(line, "Error ") || strings.HasPrefix(line, "panic:") {
+				key = "emulator/did-not-complete/" + errClass(fmt.Errorf("%s", line))
+			}
+		}
+		r.Violate(key, cs, fmt.Sprintf("exit status %d, banner present %v; AMF state %s; output tail: %s", res.ExitCode, strings.Contains(res.Stdout, ">> All tests finished"), a.Summary(), tail(res.Stdout, 600)), picks)
 		return "incomplete"
 	}
 	if len(a.UEs()) != wantUEs {
@@ -164,7 +170,7 @@ func n2judge(r *report.Report, cs string, res n2.Result, a *refamf.AMF, wantStat
 	}
 	for _, u := range a.UEs() {
 		if w := wantStates(u); u.StateName() != w {
-			r.Violate("conversation/final-state", cs, fmt.Sprintf("UE %s ends in %s at the AMF, expected %s", u.Supi, u.StateName(), w), picks)
+			r.Violate("conversation/final-state", cs, fmt.Sprintf("UE %s ends in %s at the AMF, expected %s; model trace %v; %d uplink / %d downlink messages; exit %d", u.Supi, u.StateName(), w, a.Trace, len(res.Up), len(res.Down), res.ExitCode), picks)
 		}
 	}
 	return "ok:" + a.Summary()
